@@ -424,7 +424,24 @@ func (d *HeaderFooterDetector) findRepeatingPatterns(candidates []candidate, pag
 		minOccurrences = 2
 	}
 
+	// The same text may occur at more than one place of the zone (a running
+	// title plus the title itself high on the title page). Each position is a
+	// pattern of its own, so that one stray occurrence does not hide the
+	// running line.
+	type positionedGroup struct {
+		text       string
+		candidates []candidate
+	}
+	var positioned []positionedGroup
 	for normalizedText, group := range groups {
+		for _, cluster := range d.clusterByPosition(group, isPageNumberPattern(normalizedText)) {
+			positioned = append(positioned, positionedGroup{normalizedText, cluster})
+		}
+	}
+
+	for _, pg := range positioned {
+		normalizedText, group := pg.text, pg.candidates
+
 		// Skip very short text that isn't a page number
 		// Single letters/characters are likely fragments of larger text
 		if len(normalizedText) <= 2 && !isPageNumberPattern(normalizedText) {
@@ -511,6 +528,34 @@ func (d *HeaderFooterDetector) hasConsistentPosition(group []candidate) bool {
 	}
 
 	return true
+}
+
+// clusterByPosition splits candidates with the same text into groups that
+// appear at a consistent position (within the configured tolerances of the
+// first member of the group). With yOnly set (page numbers, which may
+// alternate between the left and right margin) the horizontal position is
+// ignored.
+func (d *HeaderFooterDetector) clusterByPosition(group []candidate, yOnly bool) [][]candidate {
+	var clusters [][]candidate
+	for _, c := range group {
+		placed := false
+		for i := range clusters {
+			ref := clusters[i][0]
+			if absFloat(c.Y-ref.Y) > d.config.PositionTolerance {
+				continue
+			}
+			if !yOnly && absFloat(c.X-ref.X) > d.config.XPositionTolerance {
+				continue
+			}
+			clusters[i] = append(clusters[i], c)
+			placed = true
+			break
+		}
+		if !placed {
+			clusters = append(clusters, []candidate{c})
+		}
+	}
+	return clusters
 }
 
 // hasConsistentY checks if candidates appear at a consistent vertical position
@@ -771,7 +816,7 @@ func (r *HeaderFooterResult) isInHeaderFooter(pageIndex int, frag text.TextFragm
 		} else {
 			distFromTop = maxY - (frag.Y + frag.Height)
 		}
-		if distFromTop < headerRegion {
+		if distFromTop < headerRegion && r.atRegionPosition(header, frag, distFromTop) {
 			if textsMatch(frag.Text, header.Text, header.IsPageNumber) {
 				return true
 			}
@@ -790,7 +835,7 @@ func (r *HeaderFooterResult) isInHeaderFooter(pageIndex int, frag text.TextFragm
 		} else {
 			distFromBottom = frag.Y - minY
 		}
-		if distFromBottom < footerRegion {
+		if distFromBottom < footerRegion && r.atRegionPosition(footer, frag, distFromBottom) {
 			if textsMatch(frag.Text, footer.Text, footer.IsPageNumber) {
 				return true
 			}
@@ -798,6 +843,28 @@ func (r *HeaderFooterResult) isInHeaderFooter(pageIndex int, frag text.TextFragm
 	}
 
 	return false
+}
+
+// atRegionPosition checks that a fragment lies where the region was detected.
+// dist is the fragment's distance from the top (header) or bottom (footer)
+// reference edge, i.e. the coordinate the region's BBox.Y is expressed in.
+// Page-number regions match by pattern anywhere in the zone.
+func (r *HeaderFooterResult) atRegionPosition(region HeaderFooterRegion, frag text.TextFragment, dist float64) bool {
+	if region.IsPageNumber {
+		return true
+	}
+	slackY := region.BBox.Height - frag.Height
+	if slackY < 0 {
+		slackY = 0
+	}
+	if dist < region.BBox.Y-r.Config.PositionTolerance || dist > region.BBox.Y+slackY+r.Config.PositionTolerance {
+		return false
+	}
+	slackX := region.BBox.Width - frag.Width
+	if slackX < 0 {
+		slackX = 0
+	}
+	return frag.X >= region.BBox.X-r.Config.XPositionTolerance && frag.X <= region.BBox.X+slackX+r.Config.XPositionTolerance
 }
 
 // containsPage checks if a page index is in the list
